@@ -91,7 +91,7 @@ fn select_step<const B: usize>(layout: u8, maxlen: usize, cut: bool) {
     kani::cover!(len == 1, "W: single-element lane");
 }
 
-//@ prop=C02,C03,C16 tier=quick mem=4 timeout=1800 uses=cut,pivot inst="get_from_sorted_mut on ArrayViewMut1<u8>, unit stride" bounds="inductive step: len 1..=4, every i < len, every pivot, recursive calls cut to contract; unwind 6"
+//@ prop=C02,C03,C16:thorough tier=quick mem=4 timeout=1800 uses=cut,pivot inst="get_from_sorted_mut on ArrayViewMut1<u8>, unit stride" bounds="inductive step: len 1..=4, every i < len, every pivot, recursive calls cut to contract; unwind 6"
 #[kani::proof]
 #[kani::unwind(6)]
 fn c02_select_step_unit_n4() {
@@ -160,21 +160,21 @@ fn bulk_step<const N: usize>(cut: bool) {
     kani::cover!(m == 1, "W: a single index");
 }
 
-//@ prop=C02,C03,C18 tier=quick mem=8 timeout=2700 uses=cut,pivot inst="_get_many_from_sorted_mut_unchecked on ArrayViewMut1<u8>, len 4" bounds="inductive step: len 4, every non-empty strictly increasing index subset, every pivot; unwind 6"
+//@ prop=C02,C03:thorough,C18:thorough tier=quick mem=8 timeout=2700 uses=cut,pivot inst="_get_many_from_sorted_mut_unchecked on ArrayViewMut1<u8>, len 4" bounds="inductive step: len 4, every non-empty strictly increasing index subset, every pivot; unwind 6"
 #[kani::proof]
 #[kani::unwind(6)]
 fn c02_bulk_step_n4() {
     bulk_step::<4>(true);
 }
 
-//@ prop=C02,C03,C18 tier=quick mem=6 timeout=2700 uses=cut,pivot inst="_get_many_from_sorted_mut_unchecked on ArrayViewMut1<u8>, len 3" bounds="inductive step: len 3, every index subset, every pivot; unwind 5"
+//@ prop=C02,C03,C18:thorough tier=quick mem=6 timeout=2700 uses=cut,pivot inst="_get_many_from_sorted_mut_unchecked on ArrayViewMut1<u8>, len 3" bounds="inductive step: len 3, every index subset, every pivot; unwind 5"
 #[kani::proof]
 #[kani::unwind(5)]
 fn c02_bulk_step_n3() {
     bulk_step::<3>(true);
 }
 
-//@ prop=C02,C03,C18 tier=quick mem=4 timeout=1800 uses=cut,pivot inst="_get_many_from_sorted_mut_unchecked on ArrayViewMut1<u8>, len 2" bounds="inductive step: len 2, every index subset, every pivot; unwind 4"
+//@ prop=C02,C03:thorough,C18:thorough tier=quick mem=4 timeout=1800 uses=cut,pivot inst="_get_many_from_sorted_mut_unchecked on ArrayViewMut1<u8>, len 2" bounds="inductive step: len 2, every index subset, every pivot; unwind 4"
 #[kani::proof]
 #[kani::unwind(4)]
 fn c02_bulk_step_n2() {
@@ -257,7 +257,7 @@ fn c02_bulk_public_n3_m3() {
     bulk_public::<3, 3>();
 }
 
-//@ prop=C02,C18 tier=quick mem=6 timeout=2700 flags=modelmap,stub uses=cut inst="get_many_from_sorted_mut on Array1<u8> len 4, request list len 2; ModelMap" bounds="request list of 2 indexes over {0..3}; unwind 6"
+//@ prop=C02,C18:thorough tier=quick mem=6 timeout=2700 flags=modelmap,stub uses=cut inst="get_many_from_sorted_mut on Array1<u8> len 4, request list len 2; ModelMap" bounds="request list of 2 indexes over {0..3}; unwind 6"
 #[kani::proof]
 #[kani::unwind(6)]
 #[kani::stub(core::slice::sort::unstable::sort, model_sort)]
@@ -265,7 +265,7 @@ fn c02_bulk_public_n4_m2() {
     bulk_public::<4, 2>();
 }
 
-//@ prop=C02,C18 tier=quick mem=4 timeout=1800 flags=modelmap,stub uses=cut inst="get_many_from_sorted_mut on Array1<u8> len 3, empty request list; ModelMap" bounds="empty request list; unwind 6"
+//@ prop=C02,C18:thorough tier=quick mem=4 timeout=1800 flags=modelmap,stub uses=cut inst="get_many_from_sorted_mut on Array1<u8> len 3, empty request list; ModelMap" bounds="empty request list; unwind 6"
 #[kani::proof]
 #[kani::unwind(6)]
 #[kani::stub(core::slice::sort::unstable::sort, model_sort)]
@@ -273,7 +273,7 @@ fn c02_bulk_public_n3_m0() {
     bulk_public::<3, 0>();
 }
 
-//@ prop=C02,C18 tier=quick mem=4 timeout=1800 flags=modelmap,stub uses=cut inst="get_many_from_sorted_mut on Array1<u8> len 3, request list len 1; ModelMap" bounds="one requested index over {0,1,2}; unwind 6"
+//@ prop=C02,C18:thorough tier=quick mem=4 timeout=1800 flags=modelmap,stub uses=cut inst="get_many_from_sorted_mut on Array1<u8> len 3, request list len 1; ModelMap" bounds="one requested index over {0,1,2}; unwind 6"
 #[kani::proof]
 #[kani::unwind(6)]
 #[kani::stub(core::slice::sort::unstable::sort, model_sort)]
